@@ -308,8 +308,8 @@ def structural_result(r, out, klass0, name, idx):
 
 
 FACETS = [
-    Facet("history-exact", lambda tier: histories("frac", 25 if tier == "quick" else 40), check, quick=220, thorough=3500,
+    Facet("history-exact", lambda tier: histories("frac", 25 if tier == "quick" else 40), check, quick=400, thorough=3500,
           rule="Fraction data", case_timeout=180),
-    Facet("history-float", lambda tier: histories("float", 25 if tier == "quick" else 40), check, quick=150,
+    Facet("history-float", lambda tier: histories("float", 25 if tier == "quick" else 40), check, quick=280,
           thorough=2500, rule="float data (includes Projection / Intersection steps on 2-D curves)", case_timeout=180),
 ]
